@@ -36,6 +36,9 @@ def triple(refs, ri, a, b, c, rev, ro):
 
 
 def candidate_worlds(n_queries, equal_flanks=False):
+    """worlds with: a three-part query (two second-pass fragments), a two-part query (one fragment), two molecules of the SAME locus
+    (identical leading labels, the second with a 400 bp insertion: equal label coordinates under different seed peaks), a sparse
+    molecule whose candidate rows have secondary peaks but no qualifying segment (rows without pairs), plain windows, an unalignable one"""
     refs = e2e.std_refs()
     _, pool = e2e.query_pool()
     plain = [p for nm, p in pool if nm.startswith('plain')]
@@ -45,21 +48,30 @@ def candidate_worlds(n_queries, equal_flanks=False):
         # equal_flanks: both second-pass fragments are noise-free copies with the same number of labels -> exactly equal confidence,
         # so which of the two records survives the one-per-query filter depends on the order in which rows ARRIVE
         tq = triple(refs, ri, (5 + 3 * t, 10 if equal_flanks else 9), (22 + t, 16), (40 + t, 10 if equal_flanks else 12), rev, ro)
-        qs = [tq, chim[t % len(chim)], plain[t % len(plain)], plain[(t + 3) % len(plain)], chim[(t + 2) % len(chim)],
-              [100.0, 20000.0]][:n_queries]
-        ids = (30, 4, 17, 9, 5216, 2)
+        # same locus twice: the second molecule carries a 400 bp insertion after its 6th label, so most of it (and hence its seed
+        # peak) sits on a diagonal 400 bp away while its first six labels have exactly the coordinates of the first molecule's
+        locus = worlds.window_query(refs[ri], 30 + t, 16, rev)[0][2]
+        locus_b = worlds.apply_edit(list(locus), ('indel', 5, 400.0))
+        wide = worlds.window_query(refs[ro], 3, 41, False)[0][2]
+        sparse = [round(wide[i] + (400.0 if (i // 5) % 2 else -400.0) * (i > 0), 1) for i in range(0, 41, 5)]
+        # ids are (30, 4, 17, 9, ...): the exact copy gets id 4 and is processed before its variant (id 9) when both share a worker
+        qs = [tq, locus, chim[t % len(chim)], locus_b, sparse, plain[t % len(plain)], [100.0, 20000.0]][:n_queries]
+        ids = (30, 4, 17, 9, 5216, 2, 8)
         out.append(dict(refs=[refs[1], refs[0], refs[2]],
                         queries=[worlds.as_map(ids[j], q, trailing=(0.0, 2500.0)[j % 2]) for j, q in enumerate(qs)]))
     return out
 
 
-def execute(world, s1, s2, directory=None):
-    """one execution under the controlled pool; returns ({file: stripped lines}, calls, error)"""
+def execute(world, s1, s2, directory=None, mode='all', cpus=None):
+    """one execution under the controlled pool; returns ({file: stripped lines}, calls, error).  `-c` is set to the number of
+    workers the schedule uses (so code that looks at the requested worker count sees what the schedule models)."""
     driver.install_pool(cpool.ControlledPool)
     try:
         cpool.SCHEDULES[:] = [s for s in (s1, s2)]
         del cpool.CALLS[:]
-        obs = driver.run_world(world, 'all', directory=directory)
+        if cpus is None:
+            cpus = max([max(s['assign']) + 1 for s in (s1, s2) if s and s.get('assign')] + [1])
+        obs = driver.run_world(world, mode, directory=directory, cpus=str(cpus), isolate=False)     # tasks run in the pool's own children
         calls = [dict(c) for c in cpool.CALLS]
     finally:
         driver.install_pool(driver.StandInPool)
@@ -91,7 +103,7 @@ def perturbed_orders(assign):
 def prescan(world):
     """identity schedule in-process (stand-in pool): how many tasks per map call, which queries have second-pass records"""
     from mc import sink
-    obs = driver.run_world(world, 'all', extensions=[sink.Candidates()])
+    obs = driver.run_world(world, 'all', extensions=[sink.Candidates()], isolate=False)     # prescan itself runs isolated
     if obs.error or len(obs.map_calls) < 2:
         return None
     passes = []
@@ -139,10 +151,11 @@ class Schedules(core.Layer):
             if info and self.equal_flanks and not info.get('tied_fragment_queries'):
                 continue
             if info and info['M'] >= 3 and info['second_pass_records'] >= 2 and info['two_fragment_queries']:
-                base, calls, err = execute(w, None, None)
-                if err:
+                base, calls, err = execute(w, None, None, cpus=self.W)
+                basej, _, errj = execute(w, None, None, mode='joined', cpus=self.W)
+                if err or errj:
                     continue
-                self.selected.append(dict(world=w, info=info, base=base, calls=calls))
+                self.selected.append(dict(world=w, info=info, base=base, base_joined=basej, calls=calls))
             if len(self.selected) >= self.n_worlds:
                 break
         # 3. enumerate schedules
@@ -170,7 +183,9 @@ class Schedules(core.Layer):
             self.items.append((wi, 'completion', dict(assign=[i % 2 for i in range(N)], order=list(range(1, N)) + [0]), dict(assign=[0] * M)))
             self.items.append((wi, 'repeat', None, None))
             for hs in sorted({0, 1, 2 + self.seed % 1000}):
-                self.items.append((wi, 'hashseed', hs, dict(assign=[i % 2 for i in range(N)])))
+                for mode in ('all', 'joined'):
+                    self.items.append((wi, 'hashseed', [hs, mode], dict(assign=[i % 2 for i in range(N)])))
+            self.items.append((wi, 'one-cpu', None, None))
             for k in self.cli_ks:
                 for rep in range(2 if k in (3,) else 1):
                     self.items.append((wi, 'cli', k, rep))
@@ -179,7 +194,7 @@ class Schedules(core.Layer):
                            cli_cpus=list(self.cli_ks), hash_seeds=sorted({0, 1, 2 + self.seed % 1000}))
         self.rule = '%d executions over %d selected worlds: %s' % (
             len(self.items), len(self.selected), dict((k, sum(1 for it in self.items if it[1] == k)) for k in
-                                                      ('fifo', 'perturbed', 'completion', 'repeat', 'hashseed', 'cli')))
+                                                      ('fifo', 'perturbed', 'completion', 'repeat', 'one-cpu', 'hashseed', 'cli')))
 
     def nblocks(self):
         return max(1, len(self.items) + 1)
@@ -198,22 +213,30 @@ class Schedules(core.Layer):
         wi, kind, x1, x2 = self.items[b]
         sel = self.selected[wi]
         acc.seq += 1
-        found = self.run_item(sel['world'], sel['base'], kind, x1, x2, acc)
+        found = self.run_item(sel['world'], sel['base'], kind, x1, x2, acc, sel['base_joined'])
         case = dict(world=worlds.jsonable(sel['world']), kind=kind, a=x1, b=x2)
         for f in found:
             acc.viol(f[0], case, f[1], f[2], f[3])
         acc.sample(lambda: dict(world='%d queries x 3 references' % len(sel['world']['queries']), kind=kind, a=x1, b=x2))
 
-    def run_item(self, world, base, kind, x1, x2, acc):
+    def run_item(self, world, base, kind, x1, x2, acc, base_joined=None):
         found = []
         ntasks = 0
         if kind in ('fifo', 'perturbed', 'completion', 'repeat'):
-            files, calls, err = execute(world, x1, x2)
+            files, calls, err = execute(world, x1, x2, cpus=None if kind != 'repeat' else self.W)
             ntasks = sum(c['n'] for c in calls)
             if kind == 'completion' and acc is not None and any(c['kind'] == 'uimap' for c in calls):
                 acc.classes['unordered-map-in-use'] += 1
+            if acc is not None and calls and len(calls) < 2:
+                acc.classes['pool-not-used-by-every-pass'] += 1
+        elif kind == 'one-cpu':
+            files, calls, err = execute(world, None, None, cpus=1)
+            ntasks = sum(c['n'] for c in calls)
         elif kind == 'hashseed':
-            files, err = run_fresh(world, x2, None, x1)
+            hs, mode = x1
+            files, err = run_fresh(world, x2, None, hs, mode)
+            if mode == 'joined':
+                base = base_joined
         else:
             rc, errtxt, raw = driver.run_cli(world, 'all', cpus=x1, hashseed='random' if x2 else '0')
             err = None if rc == 0 else 'exit %s: %s' % (rc, errtxt[-300:])
@@ -244,27 +267,28 @@ class Schedules(core.Layer):
 
     def replay(self, case):
         world = case['world']
-        base, calls, err = execute(world, None, None)
-        if err:
-            return [('execution-aborted', err, 'run', {})]
-        return self.run_item(world, base, case['kind'], case['a'], case['b'], None)
+        base, calls, err = execute(world, None, None, cpus=self.W)
+        basej, _, errj = execute(world, None, None, mode='joined', cpus=self.W)
+        if err or errj:
+            return [('execution-aborted', err or errj, 'run', {})]
+        return self.run_item(world, base, case['kind'], case['a'], case['b'], None, basej)
 
     def finish(self, merged):
         merged['extra'] = dict(pool_conformance_probe=self.probe, selected_worlds=[s['info'] for s in self.selected],
                                executions_by_kind={k: sum(1 for it in self.items if it[1] == k)
-                                                   for k in ('fifo', 'perturbed', 'completion', 'repeat', 'hashseed', 'cli')})
+                                                   for k in ('fifo', 'perturbed', 'completion', 'repeat', 'one-cpu', 'hashseed', 'cli')})
 
 
 def base_digest(base):
     return digest(base)
 
 
-def run_fresh(world, s1, s2, hashseed):
+def run_fresh(world, s1, s2, hashseed, mode='all'):
     """the same controlled-pool execution in a fresh interpreter with another hash seed"""
     d = core.scratch_dir()
     path = os.path.join(d, 'c09-%d.json' % os.getpid())
     with open(path, 'w') as f:
-        json.dump(dict(world=worlds.jsonable(world), s1=s1, s2=s2), f)
+        json.dump(dict(world=worlds.jsonable(world), s1=s1, s2=s2, mode=mode), f)
     out = subprocess.run([core.PYTHON, '-m', 'mc.props.c09', path], cwd=core.VERIF, capture_output=True, text=True, timeout=600,
                          env=dict(os.environ, PYTHONHASHSEED=str(hashseed)))
     line = next((l for l in out.stdout.splitlines() if l.startswith('C09EXEC ')), None)
@@ -277,9 +301,9 @@ def run_fresh(world, s1, s2, hashseed):
 def layers(tier, seed):
     tie = Schedules('ties:N4,W2', 4, 2, 1, seed, False, (2,), equal_flanks=True, fifo=False)
     if tier == 'quick':
-        return [Schedules('N4,W3', 4, 3, 1, seed, False, (1, 3, 16)), tie]
-    return [Schedules('N4,W3', 4, 3, 1, seed, True, (1, 2, 3, 5, 8, 16)), tie, Schedules('N5,W4', 5, 4, 1, seed, False, (2, 3)),
-            Schedules('N6,W4', 6, 4, 1, seed, False, (3,), optional=True)]
+        return [Schedules('N5,W3', 5, 3, 1, seed, False, (1, 3, 16)), tie]
+    return [Schedules('N5,W3', 5, 3, 1, seed, True, (1, 2, 3, 5, 8, 16)), tie, Schedules('N6,W4', 6, 4, 1, seed, False, (2, 3)),
+            Schedules('N7,W4', 7, 4, 1, seed, False, (3,), optional=True)]
 
 
 if __name__ == '__main__':
@@ -287,5 +311,5 @@ if __name__ == '__main__':
     with open(sys.argv[1]) as fh:
         job = json.load(fh)
     w = dict(refs=[tuple(m) for m in job['world']['refs']], queries=[tuple(m) for m in job['world']['queries']])
-    files, calls, err = execute(w, job['s1'], job['s2'])
+    files, calls, err = execute(w, job['s1'], job['s2'], mode=job.get('mode', 'all'))
     print('C09EXEC ' + json.dumps(dict(files=files, error=err)))
